@@ -211,6 +211,11 @@ def templates():
         out.append(('//b/%s::*[$n]/a' % ax, [('desc-or-self-root', 'b'), (ax, '*', 'pos'), ('child', 'a', None)]))
     out.append(('//a/b', [('desc-or-self-root', 'a'), ('child', 'b', None)]))
     out.append(('//a//b', [('desc-or-self-root', 'a'), ('descendant', 'b', None)]))
+    # added after round-3 seeded changes: name steps from nested context nodes; descendant-or-self from leaf context nodes
+    out.append(('//*/b', [('desc-or-self-root', '*'), ('child', 'b', None)]))
+    out.append(('//text()/descendant-or-self::node()', [('desc-or-self-root', 'text()'), ('descendant-or-self', 'node()', None)]))
+    out.append(('//comment()/descendant-or-self::node()', [('desc-or-self-root', 'comment()'), ('descendant-or-self', 'node()', None)]))
+    out.append(('//a/node()/descendant-or-self::text()', [('desc-or-self-root', 'a'), ('child', 'node()', None), ('descendant-or-self', 'text()', None)]))
     out.append(('//a/..', [('desc-or-self-root', 'a'), ('parent', 'node()', None)]))
     out.append(('//*[$n]', [('desc-or-self-root', '*', 'childpos')]))
     out.append(('(//a)[$n]', [('desc-or-self-root', 'a'), ('global-pos',)]))
@@ -345,6 +350,9 @@ def family():
             pairs.append((sh[k % len(sh)], expr, 'present'))
             if k % 6 == SEED % 6:
                 pairs.append((rnd.choice(sh), expr, 'present'))
+            if expr in ('//a/b', '//*/b', '//a/child::*', '//a/text()'):
+                # context nodes nested in each other with a matching child AFTER the inner one: r(x(y), z)
+                pairs.append(((-1, 0, 1, 0), expr, 'present'))
     else:
         for k, (expr, prog) in enumerate(ALL_T):
             for P in sh:
